@@ -318,10 +318,16 @@ def run(ctx):
             evals += 1
             dist["chains"] += 1
             exp = ents + [{"seq": str(len(ents) + 1), "path": name, "fmt": "c4", "digest": rt.c4_of_bytes(open(nh.file_path, "rb").read())}]
-            back = [{"seq": g.generation_number, "path": g.ascmhl_filename, "fmt": g.hash_format, "digest": g.hash_string} for g in CP.parse(ch.file_path).generations]
+            try:
+                back = [{"seq": g.generation_number, "path": g.ascmhl_filename, "fmt": g.hash_format, "digest": g.hash_string} for g in CP.parse(ch.file_path).generations]
+            except Exception as e:
+                back = f"the tool's own reader fails ({type(e).__name__}: {str(e)[:100]})"
             if back != exp:
                 fails.append({"what": f"chain write -> own reader: {back} differs from what was written {exp}", "replay": {"chain": exp}})
-            ind = rt.read_chain(ch.file_path)
+            try:
+                ind = rt.read_chain(ch.file_path)
+            except Exception as e:
+                ind = f"not well-formed for an independent reader ({e})"
             if ind != exp:
                 fails.append({"what": f"chain read by an independent reader {ind} differs from what was written {exp}", "replay": {"chain": exp}})
             if drv:
